@@ -8,7 +8,7 @@ pub trait ToTokens {
 }
 impl ToTokens for Punct { fn to_tokens(&self, t: &mut TokenStream) { t.push_idx(self.idx) } }
 impl ToTokens for Ident { fn to_tokens(&self, t: &mut TokenStream) { t.push_idx(self.idx) } }
-impl ToTokens for TokenTree { fn to_tokens(&self, t: &mut TokenStream) { t.push_idx(self.idx) } }
+impl ToTokens for TokenTree { fn to_tokens(&self, t: &mut TokenStream) { t.push_idx(self.idx()) } }
 impl ToTokens for TokenStream { fn to_tokens(&self, t: &mut TokenStream) { t.absorb(*self) } }
 impl<T: ToTokens> ToTokens for Option<T> { fn to_tokens(&self, t: &mut TokenStream) { if let Some(x) = self { x.to_tokens(t) } } }
 
